@@ -4,7 +4,9 @@ use crate::ast::*;
 use crate::rng::Rng;
 
 pub const ASCII_WORDS: &[&str] = &["a", "b", "c", "ab", "abc", "hello", "World", "foo", "BAR", "x1", "42", "7", "test", "left", "right", "both", "asc", "desc", "upper", "split", "o", "aa", "aaa", "A"];
-pub const UNI_WORDS: &[&str] = &["é", "ß", "İ", "ǅ", "€", "日本", "😀", "e\u{301}", "ñandú", "Ünï", "ﬁ", "ΑΣ", "ς"];
+pub const UNI_WORDS: &[&str] = &["é", "ß", "İ", "ǅ", "€", "日本", "😀", "e\u{301}", "ñandú", "Ünï", "ﬁ", "ΑΣ", "ς",
+    // characters whose lower-case form has another byte length (shrinking: ẞ K Å, growing: İ Ⱥ Ⱦ), mixed so that totals can cancel
+    "\u{1E9E}x\u{130}", "\u{212A}a\u{23A}", "\u{212B}\u{23E}b", "x\u{1E9E}\u{130}x"];
 pub const SPECIALS: &[&str] = &[":", "|", "{", "}", "\\", "/", ",", ";", "-", "_", ".", " ", "\t", "\n", "\r", "$", "!", "..", "=", "'", "\"", "*", "+", "?", "^", "(", ")", "[", "]", "#"];
 pub const WS_CHARS: &[char] = &[' ', '\t', '\n', '\u{b}', '\u{c}', '\r', '\u{85}', '\u{a0}', '\u{1680}', '\u{2000}', '\u{2003}', '\u{200a}', '\u{2028}', '\u{2029}', '\u{202f}', '\u{205f}', '\u{3000}'];
 pub const NON_WS_LOOKALIKES: &[char] = &['\u{200b}', '\u{feff}', '\u{180e}', '\u{1c}', '\u{1f}', '\u{0}'];
@@ -91,7 +93,7 @@ pub const REGEXES: &[&str] = &[
     "\\w{40}", "^\\pL{30,}$", "[\\w.+-]{1,64}@[\\w-]{1,63}\\.\\w{2,24}", "\\w{2,60}\\d",
     // an anchored branch in a top-level alternation (the anchor binds tighter than |); upper-case escapes and capitalised
     // group names (their meaning changes if the pattern text is case-folded); groups that exist but may not take part
-    "^a|b", "^\\s+|\\s+$", "^h|o|l$", "\\D", "\\W+", "\\S+", "\\Bo", "(?P<Name>\\w+)", "[A-z]", "(a)?b", "(\\d+)-|([a-z]+)", "(x)?(o)",
+    "^a|b", "^.*foo", "foo.*$", "^.*$", "^.*o.*$", "^\\s+|\\s+$", "^h|o|l$", "\\D", "\\W+", "\\S+", "\\Bo", "(?P<Name>\\w+)", "[A-z]", "(a)?b", "(\\d+)-|([a-z]+)", "(x)?(o)",
 ];
 pub const BAD_REGEXES: &[&str] = &["(", "[a", "*a", "a**", "(?P<x"];
 
@@ -245,3 +247,6 @@ pub fn alias_mod256(rng: &mut Rng, c: char) -> char {
     let k = *rng.pick(&[1u32, 2, 3, 0x20, 0x1F6, 0x4E, 0x100]);
     char::from_u32(c as u32 + 256 * k).filter(|a| !a.is_whitespace() || c.is_whitespace()).unwrap_or(c)
 }
+
+/// sizes around the thresholds at which implementations like to switch algorithm (powers of two, +-1)
+pub const SIZE_SWEEP: &[usize] = &[63, 64, 65, 127, 128, 129, 255, 256, 257, 511, 512, 513, 1023, 1024, 1025, 2047, 2048, 2049, 4095, 4096, 4097];
